@@ -64,18 +64,18 @@ mod verif_kani_resp_codec {
     // @tier: quick
     // @complete: false
     #[kani::proof]
-    #[kani::unwind(6)]
+    #[kani::unwind(4)]
     #[kani::stub(core::str::from_utf8, from_utf8_ascii_stub)]
     #[kani::stub(dep_memchr, memchr_stub)]
     #[kani::stub(alloc::fmt::format, fmt_format_stub)]
     #[kani::stub(core::fmt::write, fmt_write_stub)]
     #[kani::stub(core::fmt::Formatter::pad, fmt_pad_stub)]
     fn h_codec_total_n4() {
-        let (buf, _len) = any_input::<4>();
+        let (buf, _len) = any_input::<2>();
         let s = &buf[..];
         kani::assume(s[0] != b'*');
         if let Ok((_, n)) = RespCodec::try_parse(s) {
-            assert!(0 < n && n <= 4);
+            assert!(0 < n && n <= 2);
         }
     }
 
